@@ -218,6 +218,9 @@ impl<'a> Hist<'a> {
             })
             .collect();
         cli.sort();
+        // a short reply that has not come out by the time its step has settled never will (its flow was gone): it must not
+        // lend its label to a later reply of the same length
+        self.short_replies.clear();
         let (u, v) = self.mux.relayed();
         // a socket closed by the pipe stays referenced by the forwarder source's pending poll until
         // that is rebuilt, which the expiry timer does at the latest: descriptors are compared
@@ -412,8 +415,82 @@ pub fn destination_restarts(ctx: &mut Ctx) {
     }
 }
 
+/// Replies that the client's sink drops (a congested client stream: the codecs' datagram sinks never block): a dropped
+/// datagram is not relayed, but it *was* an answer - the flow's activity and, on a port-53 flow, the count of open queries
+/// move as for a delivered one. A plain-DNS flow whose only query was answered is released although the answer was
+/// dropped (and a late datagram from the server then finds no flow); an ordinary flow stays and delivers the next reply.
+pub fn dropped_answers(ctx: &mut Ctx) {
+    let w = make_world(1);
+    let Some(dns_k) = w.kinds.iter().position(|k| *k == 'N') else {
+        ctx.notes.push("no port-53 server could be bound: dropped-answer scenario skipped".into());
+        return;
+    };
+    let rt = tokio::runtime::Builder::new_current_thread().enable_all().start_paused(true).build().unwrap();
+    let r: Result<(), String> = rt.block_on(async {
+        let core = make_core();
+        let mux = vudp::spawn(&core, Duration::from_millis(8000)).map_err(|e| format!("spawn: {}", e))?;
+        let settle = || async {
+            let t = Instant::now();
+            while t.elapsed() < Duration::from_millis(40) {
+                for _ in 0..100 {
+                    tokio::task::yield_now().await;
+                }
+            }
+        };
+        let src: SocketAddr = "10.1.0.9:4010".parse().unwrap();
+        let mut buf = [0u8; 2048];
+        for (k, is_dns) in [(dns_k, true), (0usize, false)] {
+            let srv = w.srv[k].as_ref().unwrap();
+            let dst = w.dst[k];
+            let what = if is_dns { "plain-DNS flow" } else { "ordinary flow" };
+            let down0 = mux.relayed().1;
+            mux.send(VDatagram { source: src, destination: dst, payload: b"query".to_vec() });
+            settle().await;
+            let (_, from) = srv.recv_from(&mut buf).map_err(|_| format!("{}: the server did not get the query", what))?;
+            if (mux.gauge(), mux.flows()) != (1, 1) {
+                return Err(format!("{}: after the query: gauge {} flows {}", what, mux.gauge(), mux.flows()));
+            }
+            mux.drop_next(1);
+            let _ = srv.send_to(b"answer-that-is-dropped", from);
+            settle().await;
+            let delivered = mux.take_delivered();
+            if !delivered.is_empty() {
+                return Err(format!("{}: the dropped answer was handed to the client all the same", what));
+            }
+            if mux.relayed().1 != down0 {
+                return Err(format!("{}: a dropped answer of 22 bytes was counted as relayed ({} bytes peer -> client)", what, mux.relayed().1 - down0));
+            }
+            let after = (mux.gauge(), mux.flows());
+            let want = if is_dns { (0, 0) } else { (1, 1) };
+            if after != want {
+                return Err(format!(
+                    "{}: after its only query was answered (the answer was dropped by the client's congested sink): outbound_udp_sockets = {}, flows = {}; {}",
+                    what, after.0, after.1,
+                    if is_dns { "all its queries are answered: the flow is to be released" } else { "the flow stays" }
+                ));
+            }
+            let _ = srv.send_to(b"late", from);
+            settle().await;
+            let late = mux.take_delivered();
+            if is_dns && !late.is_empty() {
+                return Err(format!("{}: a datagram the server sent after the flow was done was relayed to the client", what));
+            }
+            if !is_dns && late.len() != 1 {
+                return Err(format!("{}: the reply after a dropped one was not delivered ({} datagrams)", what, late.len()));
+            }
+        }
+        let _ = mux.close().await;
+        Ok(())
+    });
+    match r {
+        Ok(()) => ctx.stat("dropped_answers"),
+        Err(e) => ctx.oracle_failure("flow_after_dropped_answer", &e),
+    }
+}
+
 pub fn run(ctx: &mut Ctx) {
     destination_restarts(ctx);
+    dropped_answers(ctx);
     let nsrc = 2;
     let w = make_world(nsrc);
     ctx.notes.push(format!("destinations: {:?} kinds {:?}", w.dst, w.kinds));
